@@ -276,6 +276,13 @@ func (m *urlModule) createURLPrototype() *goja.Object {
 		return u.String()
 	}, func(u *nodeURL, arg goja.Value) {
 		u.url = m.parseURL(arg.String(), true)
+		if u.searchParams != nil {
+			// keep the list a searchParams object already handed out looks at in line with the new query
+			u.searchParams = parseSearchQuery(u.url.RawQuery)
+			if u.searchParams == nil {
+				u.searchParams = make(searchParams, 0)
+			}
+		}
 	})
 
 	// pathname
